@@ -54,6 +54,20 @@ def _c_tokenizer(jv):
     return tuple(int(x) for x in jv.split('.')[:2]) >= (3, 12)
 
 
+def _balanced(toks):
+    """pure-Python tokenize (<= 3.11) goes on after an unmatched closing bracket and at the end of input inside an open
+    one, where the real tokenizer stops with an error: such streams are reference artefacts"""
+    depth = 0
+    for t in toks:
+        if t[0] == 'OP' and t[1] in '([{':
+            depth += 1
+        elif t[0] == 'OP' and t[1] in ')]}':
+            depth -= 1
+            if depth < 0:
+                return False
+    return depth == 0
+
+
 def _parser_level(err):
     return err.startswith(('SyntaxError: invalid syntax', 'SyntaxError: expected', 'IndentationError: expected an indented'))
 
@@ -114,7 +128,8 @@ def run(tier):
                     continue        # the reference (tokenize over readline) does not treat a bare \\r as a line break
                 if not r['ok'] or any(t[0] == 'ERRORTOKEN' for t in r['toks']):
                     continue        # CPython does not tokenize it without error: no claim
-                if not cr['ok'] and not (_c_tokenizer(jv) and _parser_level(cr.get('err', '')) and _clean_tokens(r['toks'])):
+                if not cr['ok'] and not (_parser_level(cr.get('err', '')) and _clean_tokens(r['toks'])
+                                        and (_c_tokenizer(jv) or _balanced(r['toks']))):
                     # a program that tokenizes but does not compile is only used when the reference IS the C tokenizer
                     # (tokenize of 3.12+), the compiler's complaint is a parser-level one ("invalid syntax", "expected ..."),
                     # and no token is one that tokenize merely passes through although the real tokenizer rejects it
